@@ -609,6 +609,14 @@ def certify(ctx, items, tag):
             owner.append((i, name, kind, st))
     res = core.coq_lemmas(ctx.work + "/" + tag, PRE_R, lemmas, shard=10, tag=tag) if lemmas else []
     failed = [j for j, (ok, _) in enumerate(res) if not ok]
+    if failed:
+        # second attempt, one lemma per process (a coqc process killed by the OOM killer looks like a failed lemma)
+        again = core.coq_lemmas(ctx.work + "/" + tag + "_again", PRE_R, [lemmas[j] for j in failed], shard=1, tag=tag + "a")
+        for j, (ok, msg) in zip(failed, again):
+            if ok:
+                res[j] = (True, "")
+                ctx.count("retries:certificate-proved-on-second-attempt")
+        failed = [j for j in failed if not res[j][0]]
     refuted = {}
     if failed:
         neg = [("~ (%s)" % owner[j][3], "c09_refute.") for j in failed]
@@ -676,6 +684,28 @@ TRUSTED = [
 ]
 
 
+def proof_step_retry(ctx, attempts=3):
+    """core.proof_step, repeated when (and only when) the Print-Assumptions coqc process did not run to completion
+    (`<compile>`: on a loaded machine without swap the kernel's OOM killer takes coqc processes at random); a genuine
+    compile error or a forbidden axiom recurs and is reported after the last attempt"""
+    for k in range(attempts):
+        marks = (len(ctx.violations), len(ctx.obligations), len(ctx.assumptions_txt), len(ctx.checker_cmds), len(ctx.notes))
+        if core.proof_step(ctx, "C09", core.ALLOW_INTERVAL):
+            return True
+        new = ctx.violations[marks[0]:]
+        infra = len(new) == 1 and "outside the allow-list" in new[0]["what"] and "'<compile>'" in new[0]["what"]
+        if not infra or k == attempts - 1:
+            return False
+        del ctx.violations[marks[0]:]
+        del ctx.obligations[marks[1]:]
+        del ctx.assumptions_txt[marks[2]:]
+        del ctx.checker_cmds[marks[3]:]
+        del ctx.notes[marks[4]:]
+        ctx.count("retries:print-assumptions-process-did-not-complete")
+        time.sleep(5)
+    return False
+
+
 def run(ctx, replay=None):
     ctx.rule = ("points of the sphere from the families of the quantifier (uniform; poles of the source system; pre-images of the target "
                 "system's poles and points 1e-10..1e-2 deg from them; lon in {0,360}; the SDSS node (95,0)/(275,0) and survey poles) for all "
@@ -703,7 +733,7 @@ def run(ctx, replay=None):
         ctx.violation("translation of the constants/shape of esutil/coords.py failed: %s" % e,
                       {"kind": "translation", "error": str(e), "no_longer_checks": "tie of C09/Gen.v to esutil/coords.py"}, found_input=False)
     # 2. theorems (re-proved against the regenerated constants)
-    proofs_ok = core.proof_step(ctx, "C09", core.ALLOW_INTERVAL)
+    proofs_ok = proof_step_retry(ctx)
     if not proofs_ok:
         # Exec.v depends on Gen/Model/Spec only: keep looking for a failing input
         ok, log = core.coq_make(["theories/C09/Exec.vo"])
